@@ -165,10 +165,10 @@ impl Runner {
 // generators
 
 const POOL_ASCII: &[char] = &[
-    'a', 'b', 'c', 'x', 'A', 'B', 'C', 'X', '0', '1', '9', '/', ',', ':', ';', '|', ' ', '\t', '-', '_', '.', '\\', '$', '!', '^', '\'', '\u{b}',
+    'a', 'b', 'c', 'x', 'A', 'B', 'C', 'X', '0', '1', '9', '/', ',', ':', ';', '|', ' ', '\t', '-', '_', '.', '\\', '$', '!', '^', '\'', '\u{b}', '?',
 ];
 const POOL_UNI: &[char] = &[
-    'ä', 'Ä', 'é', 'É', 'ς', 'σ', 'Σ', 'ſ', 'ß', 'ł', 'Ł', 'µ', 'μ', '日', '١', '\u{a0}', '\u{3000}', 'ǅ', 'ǆ', 'Å', 'å', 'º', 'ẛ', '⁹', 'ǣ', 'Ǣ', 'æ', '\u{85}', 'ʟ',
+    'ä', 'Ä', 'é', 'É', 'ς', 'σ', 'Σ', 'ſ', 'ß', 'ł', 'Ł', 'µ', 'μ', '日', '١', '\u{a0}', '\u{3000}', 'ǅ', 'ǆ', 'Å', 'å', 'º', 'ẛ', '⁹', 'ǣ', 'Ǣ', 'æ', '\u{85}', 'ʟ', '¡', '¿',
 ];
 
 fn norm_any(c: char, hr_ascii: bool, cfg: &nucleo_matcher::Config) -> char {
